@@ -92,7 +92,7 @@ pub fn gen_inputs(rng: &mut Rng, k: usize) -> Vec<Input> {
             let parsed = grcov::parse_jacoco_xml_report(std::io::BufReader::new(std::io::Cursor::new(
                 bytes.clone(),
             )))
-            .expect("generated jacoco must parse");
+            .unwrap_or_else(|e| panic!("the JaCoCo reader rejected a well-formed generated report: {}", e));
             out.push(Input {
                 name: format!("in{}.xml", i),
                 format: "JacocoXml",
@@ -128,7 +128,7 @@ pub fn gen_inputs(rng: &mut Rng, k: usize) -> Vec<Input> {
             secs[0].pre.retain(|l| !l.is_empty());
             let mut bytes = render(&secs, false);
             bytes.extend_from_slice(format!("TN:u{}\n", i).as_bytes());
-            let parsed = grcov::parse_lcov(bytes.clone(), true).expect("generated lcov must parse");
+            let parsed = grcov::parse_lcov(bytes.clone(), true).unwrap_or_else(|e| panic!("parse_lcov rejected a well-formed generated tracefile ({}): {}", e, String::from_utf8_lossy(&bytes)));
             out.push(Input {
                 name: format!("in{}.info", i),
                 format: "Info",
